@@ -3,7 +3,7 @@
    expandExpr, extractNonterm, sortTail, Rearrange, list/optional rule synthesis), Syn/ExtLang.v (the
    meaning of the extended notation: [den]).  Lemmas: Syn/Expand_proofs.v. *)
 From Coq Require Import List ZArith Bool Lia Permutation.
-From TM Require Import Gram.Cfg Gram.Derive Syn.Expr Syn.Expand Syn.ExtLang Syn.Expand_proofs Syn.Expand_global Syn.Expand_derives Syn.Expand_correct Syn.SortPerm Syn.Expand_perm Syn.ExpandWf Syn.Expand_wf_proofs.
+From TM Require Import Gram.Cfg Gram.Derive Syn.Expr Syn.Expand Syn.ExtLang Syn.Expand_proofs Syn.Expand_global Syn.Expand_derives Syn.Expand_derives2 Syn.Expand_derives3 Syn.CfgNonneg Syn.Expand_correct Syn.SortPerm Syn.Expand_perm Syn.ExpandWf Syn.Expand_wf_proofs.
 Import ListNotations.
 Local Open Scope Z_scope.
 
@@ -23,9 +23,19 @@ Local Open Scope Z_scope.
    number of alternatives produced by expandExpr is the static [n_alts].  ./check still evaluates both
    booleans on every generated model (a loader/generator change that breaks wf_model is reported).
    C13_flat_table_is_cfg identifies the least solution of a table of flat choices with [Derive.derives] of the
-   grammar [to_cfg] reads from it; tables that still contain set / lookahead nonterminals are outside that
-   bridge (sets are resolved by C15).
-   The per-step theorem about one nonterminal keeps its historical suffix _partial (it is a step of the whole). *)
+   grammar [to_cfg] reads from it; C13_table_with_sets_is_cfg (this round) extends the bridge to the tables that still
+   hold set nonterminals (ESet i: one rule per terminal of the resolved set, [setterms i], which must list exactly
+   [setden i] and lie inside [0,T) -- sets are resolved by C15) and lookahead nonterminals (the empty rule): these are
+   all the tables [to_cfg] accepts.  C13_expand_correct_derives combines it with C13_expand_correct_wf into the FULL
+   STATEMENT above (derivations of the plain grammar read from the expanded model on the right-hand side).  Its
+   hypotheses: the static wf_model; two executable conditions, [to_cfg ... = Some g] and [nonneg_rules g] (no negative
+   symbol in g) -- both evaluated by the glue on the implementation's output of every case; and that [setterms] lists
+   exactly the denotation of every set inside [0,T) (C15).  The shape of the output table (flat choice / set /
+   lookahead per nonterminal) is DERIVED from the success of to_cfg (Expand_derives3.to_cfg_shape), not assumed.
+   NOT proved: that to_cfg always succeeds on the output of Expand for a wf_model with res_error = false (per rule:
+   C13_expand_shape); it is checked per case.
+   The per-step theorem about one nonterminal (formerly C13_expand_preserves_partial) is now C13_expand_nonterm_preserves:
+   it is a complete statement about one step, and the whole is C13_expand_correct_wf / C13_expand_correct_derives. *)
 
 (* the whole of Expand, static hypothesis only *)
 Theorem C13_expand_correct_wf :
@@ -85,6 +95,28 @@ Theorem C13_flat_table_is_cfg :
     forall X w, T <= X -> (lfp T setden vals X w <-> derives g X w).
 Proof. exact to_cfg_language. Qed.
 
+(* the same for the tables Expand really produces: set nonterminals (with their resolved terminals) and lookahead
+   nonterminals (empty rule) may remain; side conditions are executable (to_cfg succeeds, no negative symbol) *)
+Theorem C13_table_with_sets_is_cfg :
+  forall T (setden : Z -> Z -> Prop) setterms vals g, 0 <= T ->
+    to_cfg T setterms vals = Some g -> nonneg_rules g = true ->
+    (forall i a, setden i a <-> In a (setterms i)) ->
+    (forall i a, In a (setterms i) -> 0 <= a < T) ->
+    forall X w, T <= X -> (lfp T setden vals X w <-> derives g X w).
+Proof. exact to_cfg_language_checked. Qed.
+
+(* FULL STATEMENT: extended language of X = derivations of the plain grammar read from the expanded model *)
+Theorem C13_expand_correct_derives :
+  forall (setden : Z -> Z -> Prop) setterms m g,
+    wf_model m = true ->
+    to_cfg (nterms m) setterms (map snd (res_nonterms (expand m))) = Some g -> nonneg_rules g = true ->
+    (forall i a, setden i a <-> In a (setterms i)) ->
+    (forall i a, In a (setterms i) -> 0 <= a < nterms m) ->
+    forall X, nterms m <= X < nterms m + Z.of_nat (length (m_nonterms m)) -> forall w,
+      lfp (nterms m) setden (map nt_value (m_nonterms m)) X w <->
+      derives g (perm_sym (nterms m) (x_perm (snd (phase1 m))) X) w.
+Proof. exact expand_correct_derives_checked. Qed.
+
 (* the least solution is a solution: X derives w iff the value of X denotes w under the least solution *)
 Theorem C13_language_is_a_solution :
   forall T setden vals Y w, in_sys T vals Y ->
@@ -118,7 +150,7 @@ Proof.
 Qed.
 
 (* one original nonterminal: its new value (choice of flat rules) denotes what its extended value denotes *)
-Theorem C13_expand_preserves_partial :
+Theorem C13_expand_nonterm_preserves :
   forall T rho setden c, T = cT c ->
   forall v st v' st', expand_nonterm c st v = (v', st') ->
     (forall k nv, nth_error (x_extras st') k = Some nv ->
@@ -201,11 +233,20 @@ Print Assumptions C13_expand_expr_static.
 Print Assumptions C13_expand_correct.
 Print Assumptions C13_expand_preserves.
 Print Assumptions C13_flat_table_is_cfg.
+(* non-vacuity: the expanded example model (three flat choices and the set nonterminal set(a | b)) is accepted by to_cfg *)
+Example C13_example_sets_table :
+  wf_model ex_model = true /\
+  exists g, to_cfg 3 (fun _ => [0; 1]) (map snd (res_nonterms (expand ex_model))) = Some g /\ nonneg_rules g = true /\
+            length (g_rules g) = 9%nat.
+Proof. split; [vm_compute; reflexivity|]. eexists. split; [vm_compute; reflexivity|]. split; vm_compute; reflexivity. Qed.
+
+Print Assumptions C13_table_with_sets_is_cfg.
+Print Assumptions C13_expand_correct_derives.
 Print Assumptions C13_language_is_a_solution.
 Print Assumptions C13_extracted_lists_invariant.
 Print Assumptions C13_multi_concat_is_product.
 Print Assumptions C13_expand_expr_preserves.
-Print Assumptions C13_expand_preserves_partial.
+Print Assumptions C13_expand_nonterm_preserves.
 Print Assumptions C13_list_rules_unfold.
 Print Assumptions C13_equal_expressions_same_language.
 Print Assumptions C13_expand_shape.
